@@ -24,10 +24,12 @@ type c16Page struct {
 	fm      map[string]string
 	markers map[string]func(items int, flag bool) int // marker -> expected count
 	layout  bool
+	slots   bool
+	kinds   map[string]string
 }
 
 func genC16Page(r *Rand, g *Gen, idx int) *c16Page {
-	p := &c16Page{name: fmt.Sprintf("pages/o%d.vuego", idx), fm: map[string]string{}, markers: map[string]func(int, bool) int{}}
+	p := &c16Page{name: fmt.Sprintf("pages/o%d.vuego", idx), fm: map[string]string{}, markers: map[string]func(int, bool) int{}, kinds: map[string]string{}}
 	mk := func() string { return g.onceMarker() }
 	min1 := func(k int) int {
 		if k > 0 {
@@ -40,7 +42,38 @@ func genC16Page(r *Rand, g *Gen, idx int) *c16Page {
 	tags := []string{"span", "b", "p", "style", "em"}
 	for i := 0; i < n; i++ {
 		tag := Pick(r, tags)
-		switch r.Intn(15) {
+		before := map[string]bool{}
+		for m := range p.markers {
+			before[m] = true
+		}
+		which := r.Intn(19)
+		kindNames := []string{"page top level", "loop body", "component included k times", "two components", "side by side", "unreachable branch", "component inside a loop",
+			"on the loop element", "component reached directly and through a wrapper", "nested loops", "shorthand component tag", "component with <template> root", "v-if branch taken",
+			"slot content, component used twice", "same-name components in different directories", "else-branch inside a loop", "v-once on the <template> root of a component",
+			"default slot content placed at two outlets", "v-else after an empty loop inside a loop"}
+		switch which {
+		case 15: // v-once on the taken else-branch, inside a loop
+			m := mk()
+			parts = append(parts, fmt.Sprintf(`<div v-for="item in items"><p v-if="off">never</p><%s %s v-once>%s</%s></div>`, tag, Pick(r, []string{"v-else", `v-else-if="!off"`}), m, tag))
+			p.markers[m] = func(items int, _ bool) int { return min1(items) }
+		case 16: // v-once on the <template> root of a component included k times
+			m := mk()
+			comp := fmt.Sprintf("components/Once%s.vuego", m)
+			g.put(comp, fmt.Sprintf(`<template v-once><%s>%s</%s></template>`, tag, m, tag))
+			k := 1 + r.Intn(3)
+			for j := 0; j < k; j++ {
+				parts = append(parts, fmt.Sprintf(`<template include="%s"></template>`, comp))
+			}
+			p.markers[m] = func(int, bool) int { return 1 }
+		case 17: // v-once inside default slot content that the component places at two outlets
+			m := mk()
+			g.put("components/TwoOutlets.vuego", `<div class="two"><slot></slot><p><slot></slot></p></div>`)
+			parts = append(parts, fmt.Sprintf(`<template include="components/TwoOutlets.vuego"><%s v-once>%s</%s></template>`, tag, m, tag))
+			p.markers[m] = func(int, bool) int { return 1 }
+		case 18: // v-once in a v-else after an empty loop, reached from an outer loop
+			m := mk()
+			parts = append(parts, fmt.Sprintf(`<div v-for="item in items"><i v-for="x in empty">x</i><%s v-else v-once>%s</%s></div>`, tag, m, tag))
+			p.markers[m] = func(items int, _ bool) int { return min1(items) }
 		case 14: // two different components with the same file name in different directories
 			ma, mb := mk(), mk()
 			ca, cb := fmt.Sprintf("components/shop%s/Card.vuego", ma), fmt.Sprintf("components/blog%s/Card.vuego", ma)
@@ -142,6 +175,11 @@ func genC16Page(r *Rand, g *Gen, idx int) *c16Page {
 			parts = append(parts, fmt.Sprintf(`<%s>a</%s><%s>b</%s>`, tagName, tagName, tagName, tagName))
 			p.markers[m] = func(int, bool) int { return 1 }
 		}
+		for m := range p.markers {
+			if !before[m] {
+				p.kinds[m] = kindNames[which]
+			}
+		}
 		if r.Chance(40) {
 			parts = append(parts, g.snippetPlain())
 		}
@@ -167,6 +205,7 @@ func genC16(seed uint64, run int, tier string) *RunSpec {
 	}
 	// layouts: optional; a layout may hold its own v-once element and share a component with the page
 	layoutMarkers := map[string]func(int, bool) int{}
+	var slotMarkers []string
 	useLayout := r.Chance(40)
 	if useLayout {
 		lm := g.onceMarker()
@@ -179,6 +218,12 @@ func genC16(seed uint64, run int, tier string) *RunSpec {
 			layoutMarkers[sm] = func(int, bool) int { return 2 }
 		}
 		lay := fmt.Sprintf(`<section class="lay"><em v-once>%s</em><em v-once>%sX</em>`, lm, lm)
+		if r.Bool() {
+			// the page's named slots (each with its own v-once element) are placed by a component of the layout
+			g.put("components/Frame.vuego", `<div class="frame"><header><slot name="head"></slot></header><footer><slot name="foot"></slot></footer></div>`)
+			lay += `<template include="components/Frame.vuego"></template>`
+			slotMarkers = []string{g.onceMarker(), g.onceMarker()}
+		}
 		if shared != "" {
 			lay += fmt.Sprintf(`<template include="%s"></template><template include="%s"></template>`, shared, shared)
 		}
@@ -192,6 +237,10 @@ func genC16(seed uint64, run int, tier string) *RunSpec {
 				p.fm["layout"] = "once"
 				if shared != "" {
 					p.body = strings.Replace(p.body, "</main>", fmt.Sprintf(`<template include="%s"></template></main>`, shared), 1)
+				}
+				if len(slotMarkers) == 2 {
+					p.body += fmt.Sprintf(`<template #head><b v-once>%s</b></template><template #foot><i v-once>%s</i></template>`, slotMarkers[0], slotMarkers[1])
+					p.slots = true
 				}
 			}
 		}
@@ -213,13 +262,17 @@ func genC16(seed uint64, run int, tier string) *RunSpec {
 		if entry == "RenderString" || entry == "RenderByte" || entry == "RenderReader" {
 			op.Source = p.body
 		}
+		op.Expect.Kinds = map[string]string{}
 		for m, f := range p.markers {
 			op.Expect.Markers[m] = f(d.Items, d.Flag)
+			op.Expect.Kinds[m] = p.kinds[m]
 		}
 		if p.layout {
 			shared := false
 			for m, f := range layoutMarkers {
+				op.Expect.Kinds[m] = "layout"
 				if f(0, false) == 2 {
+					op.Expect.Kinds[m] = "component shared by page and layout"
 					shared = true
 					if isFile {
 						op.Expect.Markers[m] = 2
@@ -234,7 +287,18 @@ func genC16(seed uint64, run int, tier string) *RunSpec {
 			}
 			_ = shared
 		}
-		// every marker of the run that this page does not contain must not appear
+		if p.slots {
+			// the page render emits the content of its <template #name> elements once, and the layout's frame
+			// component places each named slot once more (the rule applies to page and layout separately)
+			for _, m := range slotMarkers {
+				op.Expect.Kinds[m] = "page's named slot placed by a component of the layout"
+				if isFile {
+					op.Expect.Markers[m] = 2
+				} else {
+					op.Expect.Markers[m] = 1
+				}
+			}
+		}
 		spec.Ops = append(spec.Ops, op)
 	}
 	return spec
@@ -323,7 +387,10 @@ func execC16(spec *RunSpec) *Result {
 		for _, m := range ms {
 			want := op.Expect.Markers[m]
 			got := countMarker(out, m)
-			place := c16Placement(spec, m)
+			place := op.Expect.Kinds[m]
+			if place == "" {
+				place = c16Placement(spec, m)
+			}
 			res.Cover = append(res.Cover, fmt.Sprintf("%s/%s/want%d", entryClass(op.Entry), place, want))
 			if got != want {
 				clock := "ticking"
